@@ -230,12 +230,14 @@ type hist struct {
 
 	concurrent       bool // a flush is running while rollup jobs run
 	refsBeforeReopen string
-	crashWindow      bool           // judging a recovered crash image before the rollup was repeated
-	fault            *faultState    // failed-job part: the failing step armed for the current rollup step
-	faultPending     map[int64]bool // failed-job part: target intervals whose last job failed and has not been made up for
-	world            *imgfs.World   // crash part
-	beforeTrigger    func()         // crash part: switch imaging on
-	afterIdle        func()         // crash part: switch imaging off
+	crashWindow      bool              // judging a recovered crash image before the rollup was repeated
+	fault            *faultState       // failed-job part: the failing step armed for the current rollup step
+	faultPending     map[int64]string  // failed-job part: target intervals whose last job failed and has not been made up for -> context of the failure
+	faultSwitch      *faultSwitch      // failed-job part: interceptor installed for the whole history
+	markLeft         map[[2]int64]bool // failed-job part: (file seq, interval) whose target work was done but whose mark removal failed to commit
+	world            *imgfs.World      // crash part
+	beforeTrigger    func()            // crash part: switch imaging on
+	afterIdle        func()            // crash part: switch imaging off
 }
 
 func newHist(spec *histSpec, res *histResult, rnd *rand.Rand) *hist {
@@ -580,6 +582,13 @@ func (h *hist) checkBookkeeping(ctx string, tv *targetView, books []famBook) {
 					h.stepNo, h.stepOp, f.Seq, f.Number, fam.place.Segment, fam.place.Family, ivName(iv), books[f.Fam].Marks), h.witness(nil))
 			case st != stPending && mark && h.crashWindow && h.referenced(tv, f, iv):
 				// recovered from a crash between the target's commit and the source's commit: the reference stands for the mark
+			case st != stPending && mark && h.markLeft[[2]int64{int64(f.Seq), iv}] && h.referenced(tv, f, iv):
+				// the source commit of the mark removal failed after the target work: the reference stands for the mark
+				h.res.count("fault.marks_left_by_a_failed_source_commit_covered_by_a_reference", 1)
+			case st != stPending && mark && h.markLeft[[2]int64{int64(f.Seq), iv}]:
+				h.res.violation("C04/bookkeeping/rollup-mark-kept-but-reference-removed/after-"+ctx, fmt.Sprintf("step %d (%s): file#%d (table %d of source family %s/%s) is in the %s target and the source family's commit of its mark removal failed, "+
+					"so the mark is still there (marks: %v) - but the target family no longer references the file: the next rollup adds it a second time",
+					h.stepNo, h.stepOp, f.Seq, f.Number, fam.place.Segment, fam.place.Family, ivName(iv), books[f.Fam].Marks), h.witness(nil))
 			case st != stPending && mark:
 				h.res.violation("C04/bookkeeping/rollup-mark-left/after-"+ctx, fmt.Sprintf("step %d (%s): file#%d (table %d of source family %s/%s) is %s for %s, but the source version still carries its rollup mark (marks: %v)",
 					h.stepNo, h.stepOp, f.Seq, f.Number, fam.place.Segment, fam.place.Family, st, ivName(iv), books[f.Fam].Marks), h.witness(nil))
@@ -942,7 +951,8 @@ func (h *hist) rollupStepFull(trig, ctxName string, custom func(), during func()
 			case removed == len(pend):
 				if h.fault.injectedInto(iv) {
 					h.res.count("fault.failed_jobs_that_removed_their_rollup_marks."+typ, 1)
-					faultedDone = true
+					h.fault.judged = true
+					faultedDone = h.fault.kind != "reference-manifest"
 				}
 				h.res.count("rollup_jobs_completed."+typ, 1)
 				h.res.count("source_files_rolled_up."+typ, len(pend))
@@ -964,6 +974,19 @@ func (h *hist) rollupStepFull(trig, ctxName string, custom func(), during func()
 				if h.fault.injectedInto(iv) {
 					// the job into this target failed at the injected step: keeping the marks is what makes the retry possible
 					h.res.count("fault.failed_jobs_that_kept_their_rollup_marks."+typ, 1)
+					h.fault.judged = true
+					if h.fault.kind == "source-manifest" {
+						// only the source family's commit of the mark removal failed: the target work of the job is done, the data
+						// is claimed to be in the target (the comparison below decides); the mark is left and the target's
+						// reference has to stand for it until a retry commits the removal
+						if h.markLeft == nil {
+							h.markLeft = map[[2]int64]bool{}
+						}
+						for _, fr := range pend {
+							ran = append(ran, fr)
+							h.markLeft[[2]int64{int64(fr.Seq), iv}] = true
+						}
+					}
 				} else if trig == trigForce {
 					h.res.violation("C04/rollup/forced-job-leaves-rollup-marks/"+typ, fmt.Sprintf("step %d (%s): ForceRollup on an idle source family %s/%s with %d marked files ran to quiescence, the marks for %s are still there",
 						h.stepNo, h.stepOp, f.place.Segment, f.place.Family, len(pend), ivName(iv)), h.witness(nil))
@@ -1007,7 +1030,7 @@ func (h *hist) rollupStepFull(trig, ctxName string, custom func(), during func()
 			continue
 		}
 		if faultedDone {
-			h.res.violation("C04/bookkeeping/marks-removed-although-rollup-job-failed/"+typ, fmt.Sprintf("step %d (%s): the rollup job into the %s target hit an i/o error (%s of its output table) and installed nothing, "+
+			h.res.violation("C04/bookkeeping/marks-removed-although-rollup-job-failed/"+typ+"/"+faultStage(h.fault.kind), fmt.Sprintf("step %d (%s): the rollup job into the %s target hit an i/o error (%s) and installed nothing, "+
 				"yet all its rollup marks for %s are gone and %d target cells are missing or wrong, e.g. %s: no later trigger can roll these files up",
 				h.stepNo, h.stepOp, typ, h.fault.kind, ivName(iv), r.Mismatch, firstDetail(r)), h.witness(map[string]interface{}{"interval": ivName(iv), "failing_step": h.fault.kind}))
 		}
@@ -1346,6 +1369,12 @@ func (h *hist) run(dir string) {
 	spec, res := h.spec, h.res
 	if spec.Kind == "crash" {
 		h.installWorld(dir)
+		defer seam.Restore()
+	}
+	if spec.Kind == "fault" {
+		// before the first open: manifest writers are wrapped when their store is opened
+		h.faultSwitch = &faultSwitch{}
+		seam.InstallKV(h.faultSwitch, nil)
 		defer seam.Restore()
 	}
 	e, err := openEnv(filepath.Join(dir, "data"), dbOption(spec))
